@@ -412,10 +412,11 @@ Print Assumptions C04_opening_player_no_panic.
      (C04_engine_invariant_fresh) and every Analyze call preserves it (first conjunct below): it holds after ANY history of calls.
    SearchNeg2.base_ok p: Preserve1.pos_ok p (C01's invariant) /\ at most 255 pieces in the game /\ 0 <= move p /\ the stones of the two
      opening plies exist.  Search.is_over p = false: GameOver says the game is not over.
-   SearchLegal3.withinP d p: in the tree of depth d below p (moves and null moves; finished games are not expanded) every node has at
-     most 690 generated moves (the loop fuel of the MODEL is 700; the Go code has no such limit) and no accepted move builds a stack
-     higher than 64 (C01's representation limit).  Proved outright for boards up to 5x5 with at most 51 pieces (withinP_small), which
-     gives C04_analyze_first_move_legal_small / _game without it.
+   SearchLegal3.withinP d p: in the tree of depth d below p (moves and null moves; finished games are not expanded) no accepted move
+     builds a stack higher than 64 (C01's representation limit).  Proved outright for every game of at most 64 pieces, on every board
+     size (withinP_total64: the standard sets of 3x3..6x6), which gives C04_analyze_first_move_legal_64 / _game64 without it.  (The
+     model's loops over the move generator are bounded by the node's own number of generated moves - Search.gfuel - so, unlike in
+     the first version, nothing is assumed about that number.)
    move p + c_depth cfg <= max_terminal_ply (2 684 354): C18's ply limit for the built-in evaluator.
    SearchLegal3.seed_legal s p: NoCollision at the root, stated on the table - IF the table holds an exact entry under the root's hash,
      its move is accepted by MovePreallocated at the root.  (Analyze seeds its line with that move and never re-validates it when no
@@ -481,6 +482,33 @@ Theorem C04_analyze_first_move_legal_game : forall cfg, SearchNeg5.builtin_eval 
   (c = false -> (0 < Search.c_depth cfg)%Z -> SearchLegal3.head_legal p pv).
 Proof. exact SearchLegal4.analyze_first_move_legal_game. Qed.
 Print Assumptions C04_analyze_first_move_legal_game.
+
+(* EVERY board size, every game of at most 64 pieces (the standard sets of 3x3, 4x4, 5x5, 6x6): no side condition about the tree *)
+Theorem C04_analyze_first_move_legal_64 : forall cfg, SearchNeg5.builtin_eval cfg ->
+  forall k s p sk pv v d acc c,
+  SearchLegal2.SJ s -> SearchNeg2.base_ok p -> Search.is_over p = false -> (Preserve1.total p <= 64)%N ->
+  (move p + Search.c_depth cfg <= EvalSpec.max_terminal_ply)%Z ->
+  SearchLegal3.seed_legal s p ->
+  Search.analyze_cancel Generated.Consts.gen_basis cfg k s p = (sk, (pv, v, d, acc, c)) ->
+  SearchLegal2.SJ sk /\ (pv = [] \/ SearchLegal3.head_legal p pv) /\
+  (c = false -> (0 < Search.c_depth cfg)%Z -> SearchLegal3.head_legal p pv).
+Proof. exact SearchLegal4.analyze_first_move_legal_64. Qed.
+Print Assumptions C04_analyze_first_move_legal_64.
+
+Theorem C04_analyze_first_move_legal_game64 : forall cfg, SearchNeg5.builtin_eval cfg ->
+  forall sz bwt stones caps ms p, (3 <= sz <= 8)%N -> (0 < stones)%N -> (2 * (stones + caps) <= 64)%N ->
+  Reach1.replay (Alloc.new_pos sz bwt stones caps) ms = Ok p -> Search.is_over p = false ->
+  (Z.of_nat (length ms) + Search.c_depth cfg <= EvalSpec.max_terminal_ply)%Z ->
+  forall k s sk pv v d acc c, SearchLegal2.SJ s -> SearchLegal3.seed_legal s p ->
+  Search.analyze_cancel Generated.Consts.gen_basis cfg k s p = (sk, (pv, v, d, acc, c)) ->
+  SearchLegal2.SJ sk /\ (pv = [] \/ SearchLegal3.head_legal p pv) /\
+  (c = false -> (0 < Search.c_depth cfg)%Z -> SearchLegal3.head_legal p pv).
+Proof. exact SearchLegal4.analyze_first_move_legal_game64. Qed.
+Print Assumptions C04_analyze_first_move_legal_game64.
+
+Theorem C04_within_total64 : forall d p, Preserve1.pos_ok p -> (Preserve1.total p <= 64)%N -> SearchLegal3.withinP d p.
+Proof. exact SearchLegal3.withinP_total64. Qed.
+Print Assumptions C04_within_total64.
 
 (* a fresh engine satisfies the invariant, whatever the size of its table *)
 Theorem C04_engine_invariant_fresh : forall n, SearchLegal2.SJ (Search.new_state n).
